@@ -274,6 +274,12 @@ fn run_parallel(report: &Report, rt: &Arc<tokio::runtime::Runtime>, provider: &P
 pub fn run(opts: Opts) -> i32 {
     let report = Report::new("C07", "exploration", opts.clone());
     if let Some(path) = &opts.replay {
+        let case = crate::common::load_replay_case(path);
+        if case["harness"].as_str() == Some("c07s.post_and_run") {
+            crate::sched::install_hooks();
+            crate::c07s::replay(&report, &case);
+            return report.finish();
+        }
         report.replay_by_re_enumeration(path);
     }
     report.set_rule(
@@ -342,5 +348,17 @@ pub fn run(opts: Opts) -> i32 {
             run_parallel(&report, &rt, &provider, &format!("par{n}/v1/responses"), a, b);
         });
     });
+    // schedule part (engine S): the posting handler and the run it spawns as two actors
+    {
+        crate::sched::install_hooks();
+        let bound = report.tier().pick(2, 3);
+        let ins = crate::c07s::inputs();
+        ins.par_iter().for_each(|(label, content)| {
+            if report.over_cap() {
+                return;
+            }
+            crate::c07s::run_config(&report, label, content, bound);
+        });
+    }
     report.finish()
 }
